@@ -60,6 +60,7 @@ class RowCoverage:
         self.bad, self.unknown, self.placed = [], [], []
         self.nfeat = expected_term(self.m, 'n_features')
         self.derived = set()
+        self.loopvars = []          # targets of the enclosing loops over (parts of) the structure description
 
     # -- recognisers ----------------------------------------------------------
     def _is_store(self, s):
@@ -69,6 +70,13 @@ class RowCoverage:
         return isinstance(s, ast.AugAssign) and isinstance(s.target, ast.Name) and (name is None or s.target.id == name) and isinstance(s.op, ast.Add) and isinstance(s.value, ast.Constant) and s.value.value == 1
 
     def _touches(self, s):
+        # reading the shape / length of the matrix touches no row
+        if isinstance(s, ast.Assign) and len(s.targets) == 1 and isinstance(s.targets[0], ast.Name) and s.targets[0].id not in (self.X, self.cursor):
+            v = s.value
+            if (isinstance(v, ast.Subscript) and isinstance(v.value, ast.Attribute) and v.value.attr == 'shape' and isinstance(v.value.value, ast.Name) and v.value.value.id == self.X) or \
+               (isinstance(v, ast.Attribute) and v.attr in ('shape', 'dtype', 'ndim') and isinstance(v.value, ast.Name) and v.value.id == self.X) or \
+               (isinstance(v, ast.Call) and isinstance(v.func, ast.Name) and v.func.id == 'len' and len(v.args) == 1 and isinstance(v.args[0], ast.Name) and v.args[0].id == self.X):
+                return False
         names = {x.id for x in ast.walk(s) if isinstance(x, ast.Name)}
         return self.X in names or (self.cursor is not None and self.cursor in names and any(isinstance(x, ast.Name) and x.id == self.cursor and isinstance(x.ctx, ast.Store) for x in ast.walk(s)))
 
@@ -121,12 +129,40 @@ class RowCoverage:
                 self.cursor = self.cursor or s.targets[0].id
                 st['init'] = True
                 continue
+            # a helper method of the class that fills the rows start .. stop of the matrix it is given (summarised from its body)
+            call = s.value if isinstance(s, (ast.Expr, ast.Assign)) and isinstance(s.value, ast.Call) else None
+            summ = self._fill_helper(call) if call is not None else None
+            if summ is not None:
+                start, stop, returns_cursor = summ
+                tgt = s.targets[0].id if isinstance(s, ast.Assign) and len(s.targets) == 1 and isinstance(s.targets[0], ast.Name) else None
+                st_t, sp_t = term_of(self.fn, start, inline=False), term_of(self.fn, stop, inline=False)
+                if st_t == ('num', 0) and sp_t == self.nfeat and tgt is None:
+                    st['closed'] = True
+                    st['wrote'] = True
+                    continue
+                if st_t[0] == 'name' and self._cursor_candidate(st_t[1]):
+                    self.cursor = self.cursor or st_t[1]
+                    if st_t[1] == self.cursor:
+                        if not st['init']:
+                            self.unknown.append((s, f'the cursor `{self.cursor}` is used before it is set to 0 on this path'))
+                        st['wrote'] = True
+                        if tgt == self.cursor and returns_cursor:
+                            st['fill'] = sp_t                      # rows cursor .. T filled, cursor = max(cursor, T)
+                        elif tgt is None:
+                            st['stale'], st['fill'] = sp_t, None     # rows filled, the cursor left behind
+                        else:
+                            self.unknown.append((s, 'the result of the fill helper is bound to something other than the cursor'))
+                            continue
+                        if sp_t == self.nfeat:
+                            st['closed'] = True
+                        continue
             # the cursor set by assignment: c = c (nothing), or c = T right after the rows c .. T were written at a loop index
             if self.cursor is not None and isinstance(s, ast.Assign) and len(s.targets) == 1 and isinstance(s.targets[0], ast.Name) and s.targets[0].id == self.cursor:
                 vt = term_of(self.fn, s.value, inline=False)
                 if vt == ('name', self.cursor):
                     continue
-                if st.get('stale') is not None and st.get('stale') is not True and vt == st['stale']:
+                if st.get('stale') is not None and st.get('stale') is not True and vt in (st['stale'], ('call', ('name', 'max'), (('name', self.cursor), st['stale']), ()), ('call', ('name', 'max'), (st['stale'], ('name', self.cursor)), ())):
+                    vt = st['stale']
                     st['fill'], st['stale'] = vt, None
                     if vt == self.nfeat:
                         st['closed'] = True
@@ -142,7 +178,7 @@ class RowCoverage:
                     if not st['init']:
                         self.unknown.append((s, f'the cursor `{idx.id}` is used before it is set to 0 on this path'))
                     if self._structured(s.value, body, i - 1):
-                        self.placed.append((s, st['fill']))
+                        self.placed.append((s, st['fill'], self.loopvars[-1] if self.loopvars else None))
                     st['fill'] = None
                     st['wrote'] = True
                     i += 1
@@ -206,10 +242,17 @@ class RowCoverage:
                     self.bad.append((kind[1], s, kind[2]))
                     continue
                 # any other loop: its body must keep the invariant; it may run zero times
+                pushed = False
                 if isinstance(s, ast.For):
                     self._note_derived(s)
+                    # a loop over a LIST OF INDEXES taken from a structure entry (not the loop over the entries themselves)
+                    if isinstance(s.target, ast.Name) and s.target.id in self.derived and isinstance(s.iter, ast.Name) and s.iter.id in self.derived and s.iter.id != 'structure':
+                        self.loopvars.append(s.target.id)
+                        pushed = True
                 inner = dict(st, fill=None, closed=False)
                 inner = self.run(s.body, inner)
+                if pushed:
+                    self.loopvars.pop()
                 st['wrote'] = st.get('wrote') or inner.get('wrote')
                 st['init'] = st['init'] and (inner['init'] or inner.get('dead', False))
                 st['fill'] = None if inner.get('wrote') else st['fill']
@@ -229,6 +272,46 @@ class RowCoverage:
             if self._touches(s):
                 self.unknown.append((s, 'a statement that touches the matrix or the cursor in a way the row-coverage rule does not model'))
         return st
+
+    def _fill_helper(self, call):
+        """(start expr, stop expr, returns max(start, stop)) when `call` is self.<helper>(X, start, stop, ...) and the helper's body is
+        `for i in range(start, stop): M[i] = <generated feature>` (nothing else touches M), optionally returning max(start, stop)"""
+        f = call.func
+        if not (isinstance(f, ast.Attribute) and isinstance(f.value, ast.Name) and f.value.id in ('self', 'cls')) or len(call.args) < 3:
+            return None
+        if not (isinstance(call.args[0], ast.Name) and call.args[0].id == self.X):
+            return None
+        cls = self.fn.qualname.rsplit('.', 1)[0] if '.' in self.fn.qualname else None
+        h = self.m.funcs.get(f'{cls}.{f.attr}') if cls else None
+        if h is None:
+            return None
+        ps = [p for p in h.params if p not in ('self', 'cls')]
+        if len(ps) < 3:
+            return None
+        M, a, b = ps[:3]
+        loops = [n for n in h.node.body if isinstance(n, ast.For)]
+        stores = [n for n in own_nodes(h.node) if isinstance(n, ast.Assign) and len(n.targets) == 1 and isinstance(n.targets[0], ast.Subscript) and isinstance(n.targets[0].value, ast.Name) and n.targets[0].value.id == M]
+        others = [n for n in own_nodes(h.node) if isinstance(n, (ast.Continue, ast.Break)) or (isinstance(n, ast.Name) and n.id == M and isinstance(n.ctx, ast.Store))]
+        if len(loops) != 1 or len(stores) != 1 or others or not isinstance(loops[0].target, ast.Name):
+            return None
+        lp = loops[0]
+        it = term_of(h, lp.iter, inline=False)
+        if it != expected_term(self.m, f'range({a}, {b})'):
+            return None
+        if not any(x is stores[0] for x in lp.body) or not (isinstance(stores[0].targets[0].slice, ast.Name) and stores[0].targets[0].slice.id == lp.target.id):
+            return None
+        if not any(_is_gen_call(c) for c in ast.walk(stores[0].value)) and not isinstance(stores[0].value, ast.Name):
+            return None
+        rets = [r for r in own_nodes(h.node) if isinstance(r, ast.Return) and r.value is not None]
+        returns_cursor = False
+        if rets:
+            rt = [term_of(h, r.value, inline=False) for r in rets]
+            good = (expected_term(self.m, f'max({a}, {b})'), expected_term(self.m, f'max({b}, {a})'))
+            if all(t in good for t in rt):
+                returns_cursor = True
+            else:
+                return None
+        return call.args[1], call.args[2], returns_cursor
 
     def _cursor_candidate(self, name):
         """`name = 0` initialises the cursor when name is later used as a row index that is advanced (X[name] = ..; name += 1)"""
@@ -309,7 +392,11 @@ class RowCoverage:
         if not st.get('dead'):
             self.at_exit(st, fn.node)
         for oid, node, why in self.bad:
-            chk.bad(oid, 'R4', fn.site(node), ast.unparse(node).replace('\n', ' ')[:100], why)
+            if self.unknown:
+                # the abstract state was lost at a statement the interpreter does not model: what it reports after that is not a finding
+                chk.unsure(oid, 'R4', fn.site(node), ast.unparse(node).replace('\n', ' ')[:100], 'not decided (the row-coverage state was lost at an unmodelled statement earlier in the function); the rule would otherwise report: ' + why)
+            else:
+                chk.bad(oid, 'R4', fn.site(node), ast.unparse(node).replace('\n', ' ')[:100], why)
         for node, why in self.unknown:
             chk.unsure('C19.1a', 'R4', fn.site(node), ast.unparse(node).replace('\n', ' ')[:100], why)
         if not self.bad and not self.unknown:
@@ -325,9 +412,15 @@ class RowCoverage:
             chk.ok('C19.1d', 'R4', fn.site(), f'{len(self.exits)} exit(s)', 'rows after the last structured feature are filled')
         # 2 placement: each structured feature is stored right after the rows up to its declared index were filled
         chk.require_count('structured feature stores', len(self.placed), 1)
-        for node, fill in self.placed:
+        for node, fill, lvar in self.placed:
             names = {x[1] for x in walk_term(fill) if isinstance(x, tuple) and len(x) == 2 and x[0] == 'name'} if fill is not None else set()
-            if fill is None:
+            if fill is not None and lvar is not None and fill != ('name', lvar) and names and names <= self.derived and not self.unknown:
+                chk.bad('C19.2', 'R1', fn.site(node), f'{ast.unparse(node)[:60]} after filling up to {show(fill)[:40]}', f'inside the loop over the indexes of a structure entry (`for {lvar} in ...`) the rows are filled up to {show(fill)[:40]}, '
+                        f'not up to the index `{lvar}` of the feature that is being placed: every member after the first lands right behind the previous one instead of at its declared column')
+                continue
+            if fill is None and self.unknown:
+                chk.unsure('C19.2', 'R1', fn.site(node), ast.unparse(node)[:100], 'whether the rows up to the declared index were filled before this store is not decided (the row-coverage state was lost at an unmodelled statement)')
+            elif fill is None:
                 chk.bad('C19.2', 'R1', fn.site(node), ast.unparse(node)[:100], f'the structured feature is stored at the cursor without first filling the rows up to its declared index in the same iteration: features of a structure entry do not land at their declared column positions')
             elif names and names <= self.derived:
                 chk.ok('C19.2', 'R1', fn.site(node), f'{ast.unparse(node)[:60]} after filling up to {show(fill)[:40]}', 'default features are generated up to the declared index before the structured feature is stored (so it sits at its declared column)')
@@ -352,7 +445,7 @@ def matrix(repo, chk):
     ok_dt = dt is not None and ast.unparse(dt) in ("'int32'", 'np.int32', 'numpy.int32')
     chk.expect(ok_shape and ok_dt, 'C19.3a', 'R8', fn.site(al), ast.unparse(al), 'matrix of n_features x n_samples 32-bit integers', 'the matrix must be allocated as [n_features, n_samples] with dtype int32')
     rets = returns(fn)
-    chk.expect(len(rets) == 1 and ast.unparse(rets[0].value) in (f'{X}.T', f'{X}.transpose()', f'np.transpose({X})'), 'C19.3b', 'R8', fn.site(rets[0]) if rets else fn.site(), ast.unparse(rets[0]) if rets else '', 'the data set is the transpose (n_samples x n_features)', 'generate_data must return X.T')
+    chk.expect(len(rets) >= 1 and all(r.value is not None and ast.unparse(r.value) in (f'{X}.T', f'{X}.transpose()', f'np.transpose({X})') for r in rets), 'C19.3b', 'R8', fn.site(rets[0]) if rets else fn.site(), ast.unparse(rets[0]) if rets else '', 'the data set is the transpose (n_samples x n_features)', 'generate_data must return X.T')
     zero_init = m.dotted(al.value.func) == 'numpy.zeros'
     cov = RowCoverage(fn, X, chk)
     cov.check()
@@ -465,6 +558,19 @@ def feature(repo, chk):
         # 5: representation
         lenD = ('call', ('name', 'len'), (D,), ())
         fit_atom = ('cmp', '<=', lenD, ('name', 'size'))
+        rest_t = Canon(m, Scope(None), inline=False, bound={'LEN': lenD}).t(ast.parse('size - LEN', mode='eval').body)
+        same_as_fit = {('cmp', '<=', ('num', 0), rest_t), ('cmp', '>=', rest_t, ('num', 0)), ('cmp', '>=', ('name', 'size'), lenD)}
+        opposite = {('cmp', '<', rest_t, ('num', 0)), ('cmp', '>', ('num', 0), rest_t), ('cmp', '<', ('name', 'size'), lenD), ('cmp', '>', lenD, ('name', 'size'))}
+
+        def _fitnorm(t):
+            if t in same_as_fit:
+                return fit_atom
+            if t in opposite:
+                return cn._not(fit_atom)
+            if isinstance(t, tuple) and t and t[0] in ('and', 'or') and isinstance(t[1], tuple):
+                return (t[0], tuple(sorted((_fitnorm(x) for x in t[1]), key=repr)))
+            return t
+        fit_terms = [(_fitnorm(tt), v, t_ast) for tt, v, t_ast in fit_terms]
         for tt, v, t_ast in fit_terms:
             if tt == fit_atom:
                 fits = v
@@ -762,6 +868,9 @@ def naive(repo, chk):
         lab_ok = len(lab) == 1 and term_of(tg, lab[0]['value'], inline=False) == T
         ok_c = idx_false and lab_ok and (labelled_ctor or (plain_ctor and relabel_ok))
     cs = [c for c in calls(tg) if tg.module.dotted(c.func) == f'{GN}.generate_random_matrix']
-    ok_a = len(cs) == 1 and [ast.unparse(a) for a in cs[0].args] == [f'{tg.params[0]}.num_synthetic_features', f'{tg.params[0]}.num_synthetic_rows']
+    from ..match import bind_args
+    gen_fn = repo.func(GN, 'generate_random_matrix')
+    ba_ = bind_args(cs[0], gen_fn) if len(cs) == 1 else {}
+    ok_a = len(cs) == 1 and [ast.unparse(ba_[p_]) if p_ in ba_ else None for p_ in gen_fn.params[:2]] == [f'{tg.params[0]}.num_synthetic_features', f'{tg.params[0]}.num_synthetic_rows']
     chk.expect(ok_c and ok_a, 'C19.7e', 'R15', tg.site(), "columns f0..f{n-1}, 'label'; to_csv(data.csv, index=False); generate_random_matrix(num_synthetic_features, num_synthetic_rows)", 'the CSV holds the sample under f0.. and the target under label, without an index column',
                'the generator task must name the columns f0.. and label, write data.csv with index=False and pass (features, rows) in that order', soft=True)
